@@ -55,10 +55,17 @@ def to_py(o, klass):
     return tuple(u[r] for r in o)
 
 
+class UnreadableOutcome(Exception):
+    """The implementation produced an outcome that is not made of the symbols it was given."""
+
+
 def from_py(o, klass):
     u = UNIVERSE[klass]
     inv = {s: i for i, s in enumerate(u)}
-    return [inv[s] for s in o]
+    try:
+        return [inv[s] for s in o]
+    except (KeyError, TypeError):
+        raise UnreadableOutcome('%r is not an outcome over the symbols %s' % (o, u))
 
 
 def to_py_nested(o, klass):
